@@ -99,6 +99,7 @@ def parseReq (l : Line) : Option Req :=
       if kind == "cleanup" then pure (.cbegin id false)
       else if kind == "reset" then pure (.cbegin id true) else none
   | "cfinish" => do let id ← l.nat? "id"; pure (.cfinish id)
+  | "bgstart" => some .bgstart
   | "bgsnap" => some .bgsnap
   | "bgfinish" => some .bgfinish
   | "stop" => some .stop
@@ -138,6 +139,13 @@ def drvStep (st : DState) (line : String) : DState × String :=
     | some mx, some t0 => (.seq (Cache.init mx t0), "ok")
     | _, _ => (st, "error")
   | "cnew" =>
+    match l.int? "max", l.int? "t0", l.int? "iv" with
+    | some mx, some t0, some iv =>
+      -- `cnew`: NewCache and the periodic goroutine has been scheduled (ticker created)
+      (.conc (respond (CState.init mx t0 iv) .bgstart).state, "ok")
+    | _, _, _ => (st, "error")
+  | "cnewraw" =>
+    -- NewCache only: the periodic goroutine is spawned but has not run yet (`bgstart` follows, or `stop`)
     match l.int? "max", l.int? "t0", l.int? "iv" with
     | some mx, some t0, some iv => (.conc (CState.init mx t0 iv), "ok")
     | _, _, _ => (st, "error")
